@@ -33,33 +33,32 @@ theorem calcIndex_bridge (indexStr : Bytes) (length next : Int) (rnd : Nat) :
   by_cases h1 : indexStr = [110, 101, 120, 116]
   · subst h1
     by_cases hl : length ≤ 0
-    · simp [eraseErr, hl]
+    · simp (disch := omega) [eraseErr, hl, if_pos, if_neg]
     · by_cases hn : next ≥ length
       · have : length ≠ 0 := by omega
-        simp [eraseErr, hl, hn, tmodC, this, Res.bind]
-      · simp [eraseErr, hl, hn, Res.bind]
+        simp (disch := omega) [eraseErr, hl, hn, tmodC, this, Res.bind, if_pos, if_neg]
+      · simp (disch := omega) [eraseErr, hl, hn, Res.bind, if_pos, if_neg]
   · by_cases h2 : indexStr = [114, 97, 110, 100]
     · subst h2
       by_cases hl : length ≤ 0
-      · simp [eraseErr, hl]
-      · have hp : ¬ length ≤ 0 := hl
-        simp [eraseErr, hl, intnC]
+      · simp (disch := omega) [eraseErr, hl, if_pos, if_neg]
+      · simp (disch := omega) [eraseErr, hl, intnC, if_pos, if_neg]
     · by_cases h3 : indexStr = [108, 97, 115, 116]
       · subst h3
         by_cases hl : length ≤ 0
-        · simp [eraseErr, hl]
-        · simp [eraseErr, hl]
+        · simp (disch := omega) [eraseErr, hl, if_pos, if_neg]
+        · simp (disch := omega) [eraseErr, hl, if_pos, if_neg]
       · cases ha : atoi indexStr with
         | none => simp [eraseErr, h1, h2, h3]
         | some v =>
           by_cases hl : length ≤ 0
-          · simp [eraseErr, h1, h2, h3, hl]
+          · simp (disch := omega) [eraseErr, h1, h2, h3, hl, if_pos, if_neg]
           · have hne : length ≠ 0 := by omega
             by_cases hr : 0 ≤ v ∧ v < length
-            · have hr' : v ≥ 0 ∧ v < length := ⟨hr.1, hr.2⟩
-              simp [eraseErr, h1, h2, h3, hl, hr]
-            · have hr' : ¬ (v ≥ 0 ∧ v < length) := fun h => hr ⟨h.1, h.2⟩
-              simp [eraseErr, h1, h2, h3, hl, hr, tmodC, hne, Res.bind]
+            · simp (disch := omega) [eraseErr, h1, h2, h3, hl, hr, if_pos, if_neg]
+            · by_cases hm : Int.tmod v length < 0
+              · simp (disch := omega) [eraseErr, h1, h2, h3, hl, hr, hm, tmodC, hne, Res.bind, if_pos, if_neg]
+              · simp (disch := omega) [eraseErr, h1, h2, h3, hl, hr, hm, tmodC, hne, Res.bind, if_pos, if_neg]
 
 /-! ### `templater.randInt` -/
 
@@ -77,8 +76,8 @@ theorem randInt_bridge (f t : Int) (rnd : Nat) :
         · exact absurd hz h0
         · simp only [hz, if_false, he, Bool.true_and, decide_eq_true_eq]
           by_cases hd : wrap64 (f - t) ≤ 0
-          · simp [hd, eraseErr]
-          · simp [hd, eraseErr, intnC, Res.bind]
+          · simp (disch := omega) [hd, eraseErr, if_pos, if_neg]
+          · simp (disch := omega) [hd, eraseErr, intnC, Res.bind, if_pos, if_neg]
   · simp only [h, if_false]
     by_cases h0 : f = 0 ∧ t = 0
     · obtain ⟨rfl, rfl⟩ := h0
@@ -86,18 +85,18 @@ theorem randInt_bridge (f t : Int) (rnd : Nat) :
       have h10 : ¬ ((10 : Int) = 0) := by omega
       simp only [h10, if_false]
       have hw : wrap64 10 = 10 := by unfold wrap64; omega
-      simp [eraseErr, intnC, Res.bind, hw]
+      simp (disch := omega) [eraseErr, intnC, Res.bind, hw, if_pos, if_neg]
     · simp only [h0, if_false, Bool.true_and, decide_eq_true_eq]
       by_cases he : t = f
       · subst he
         simp only [if_true]
         by_cases hd : wrap64 (wrap64 (t + 10) - t) ≤ 0
-        · simp [hd, eraseErr]
-        · simp [hd, eraseErr, intnC, Res.bind]
+        · simp (disch := omega) [hd, eraseErr, if_pos, if_neg]
+        · simp (disch := omega) [hd, eraseErr, intnC, Res.bind, if_pos, if_neg]
       · simp only [he, if_false]
         by_cases hd : wrap64 (t - f) ≤ 0
-        · simp [hd, eraseErr]
-        · simp [hd, eraseErr, intnC, Res.bind]
+        · simp (disch := omega) [hd, eraseErr, if_pos, if_neg]
+        · simp (disch := omega) [hd, eraseErr, intnC, Res.bind, if_pos, if_neg]
 
 /-! ### `readSized` -/
 
@@ -108,10 +107,10 @@ theorem readSized_bridge (size : Int) (rest : Bytes) :
   refine ⟨rfl, ?_⟩
   unfold Gen.C13Src.readSizedRefuses readBody
   by_cases h : size < 0
-  · simp [h]
+  · simp (disch := omega) [h, if_pos, if_neg]
   · by_cases h2 : size > rest.length
-    · simp [h, h2]
-    · simp [h, h2]
+    · simp (disch := omega) [h, h2, if_pos, if_neg]
+    · simp (disch := omega) [h, h2, if_pos, if_neg]
 
 /-- the reader never allocates more than one chunk ahead of the data it has read, and a chunk fits the memory the model assumes -/
 theorem readChunkSize_bridge : 0 < Gen.C13Src.readChunkSize ∧ Gen.C13Src.readChunkSize ≤ memCap := by
@@ -131,11 +130,11 @@ theorem uripostPassEnd_bridge (passes passNum ammoNum : Nat) :
   unfold httpPassEnd passEndOf Gen.C13Src.uripostPassLimit Gen.C13Src.uripostNoAmmo
   by_cases h : passes ≠ 0 ∧ passNum ≥ passes
   · have : ((passes : Int) ≠ 0 ∧ (passNum : Int) ≥ passes) := by omega
-    simp [h, this]
+    simp (disch := omega) [h, this, if_pos, if_neg]
   · have h' : ¬ ((passes : Int) ≠ 0 ∧ (passNum : Int) ≥ passes) := by omega
     by_cases ha : ammoNum = 0
-    · simp [h, ha]
-    · simp [h, ha]
+    · simp (disch := omega) [h, ha, if_pos, if_neg]
+    · simp (disch := omega) [h, ha, if_pos, if_neg]
 
 theorem rawPassEnd_bridge (passes passNum ammoNum : Nat) :
     Gen.C13Src.rawPassEndSeq = ["passNum++", "ErrPassLimit", "ErrNoAmmo", "Seek"] ∧
@@ -145,11 +144,11 @@ theorem rawPassEnd_bridge (passes passNum ammoNum : Nat) :
   unfold httpPassEnd passEndOf Gen.C13Src.rawPassLimit Gen.C13Src.rawNoAmmo
   by_cases h : passes ≠ 0 ∧ passNum ≥ passes
   · have : ((passes : Int) ≠ 0 ∧ (passNum : Int) ≥ passes) := by omega
-    simp [h, this]
+    simp (disch := omega) [h, this, if_pos, if_neg]
   · have h' : ¬ ((passes : Int) ≠ 0 ∧ (passNum : Int) ≥ passes) := by omega
     by_cases ha : ammoNum = 0
-    · simp [h, ha]
-    · simp [h, ha]
+    · simp (disch := omega) [h, ha, if_pos, if_neg]
+    · simp (disch := omega) [h, ha, if_pos, if_neg]
 
 theorem uriPassEnd_bridge (passes passNum ammoNum : Nat) :
     Gen.C13Src.uriPassEndSeq = ["passNum++", "ErrPassLimit", "ErrNoAmmo", "Seek"] ∧
@@ -159,11 +158,11 @@ theorem uriPassEnd_bridge (passes passNum ammoNum : Nat) :
   unfold httpPassEnd passEndOf Gen.C13Src.uriPassLimit Gen.C13Src.uriNoAmmo
   by_cases h : passes ≠ 0 ∧ passNum ≥ passes
   · have : ((passes : Int) ≠ 0 ∧ (passNum : Int) ≥ passes) := by omega
-    simp [h, this]
+    simp (disch := omega) [h, this, if_pos, if_neg]
   · have h' : ¬ ((passes : Int) ≠ 0 ∧ (passNum : Int) ≥ passes) := by omega
     by_cases ha : ammoNum = 0
-    · simp [h, ha]
-    · simp [h, ha]
+    · simp (disch := omega) [h, ha, if_pos, if_neg]
+    · simp (disch := omega) [h, ha, if_pos, if_neg]
 
 /-- the jsonline decoder asks the same two questions; it tests the pass limit at the top of its loop (after the seek),
 and "no ammo" before it counts the pass - either way a file without entries is never read twice -/
@@ -192,7 +191,7 @@ theorem mprRead_bridge (data : Bytes) (passes : Nat) (s : MPR) (hend : data[s.po
   rw [hend]
   simp only [if_true]
   by_cases hb : s.passBytes = 0
-  · simp [hb]
+  · simp (disch := omega) [hb, if_pos, if_neg]
   · have hb' : ¬ ((s.passBytes : Int) = 0) := by omega
     by_cases hp : s.ammoNum > s.passStart
     · have hp' : ((s.ammoNum : Int) > s.passStart) := by omega
@@ -203,13 +202,13 @@ theorem mprRead_bridge (data : Bytes) (passes : Nat) (s : MPR) (hend : data[s.po
       simp only [hnf, if_false]
       by_cases hs : passes = 0 ∨ s.passesCount + 1 < passes
       · have hs' : ((passes : Int) ≤ 0 ∨ ((s.passesCount + 1 : Nat) : Int) < passes) := by omega
-        simp [hb, hb', hp, hp', hs, hs']
-        omega
+        simp (disch := omega) [hb, hb', hp, hp', hs, hs', if_pos, if_neg]
+        all_goals omega
       · have hs' : ¬ ((passes : Int) ≤ 0 ∨ ((s.passesCount + 1 : Nat) : Int) < passes) := by omega
-        simp [hb, hb', hp, hp', hs, hs']
-        omega
+        simp (disch := omega) [hb, hb', hp, hp', hs, hs', if_pos, if_neg]
+        all_goals omega
     · have hp' : ¬ ((s.ammoNum : Int) > s.passStart) := by omega
       have hf : (s.passBytes = 0 ∨ ¬ s.ammoNum > s.passStart) := .inr hp
-      simp [hb, hb', hp, hp', hf]
+      simp (disch := omega) [hb, hb', hp, hp', hf, if_pos, if_neg]
 
 end Pandora.Bridge.C13
